@@ -28,6 +28,9 @@ var Families = map[string]func(t *testing.T, seed int64, steps int) *Cluster{
 	"snapmember": famSnapMember,
 	"cfgtrunc":  famCfgTrunc,
 	"snapcfgrace": famSnapCfgRace,
+	"restoreinflight": famRestoreInflight,
+	"prevoteterm": famPreVoteTerm,
+	"dupis":       famDupIS,
 }
 
 // famSnapMember: snapshots racing with membership changes and a slow FSM, then restarts from the snapshot.
@@ -262,7 +265,7 @@ func famPreVote(t *testing.T, seed int64, steps int) *Cluster {
 	if len(others) == 0 {
 		c.Opt.ExpectStable = true
 		c.RunQuiet(200*time.Millisecond, 5*time.Millisecond)
-		c.Quiesce(true)
+		c.Quiesce(false)
 		return c
 	}
 	c.Rng.Shuffle(len(others), func(i, j int) { others[i], others[j] = others[j], others[i] })
@@ -402,7 +405,7 @@ func famSnap(t *testing.T, seed int64, steps int) *Cluster {
 	c.StartAll()
 	w := Weights{Deliver: 40, Reply: 40, Drop: 3, LoseResp: 3, Dup: 2, Tick: 14, TickMax: 20 * time.Millisecond,
 		Apply: 10, Barrier: 1, UserSnap: 2, Partition: 3, Heal: 2, Crash: 1, CrashAtWrite: 1, Restart: 3, MaxCrashes: 5,
-		FsmGate: 1, FsmRelease: 3, DupIS: 3}
+		FsmGate: 1, FsmRelease: 3}
 	c.RandomRun(w, steps)
 	c.converge(600 * time.Millisecond)
 	return c
@@ -528,5 +531,26 @@ func famHappy(t *testing.T, seed int64, steps int) *Cluster {
 	}
 	c.Barrier(l, 0)
 	c.RunQuiet(50*time.Millisecond, 5*time.Millisecond)
+	return c
+}
+
+// famDupIS: the snapshot family with late duplicates of InstallSnapshot requests re-delivered after the follower
+// has progressed (explored here only: see the known finding on stale InstallSnapshot).
+func famDupIS(t *testing.T, seed int64, steps int) *Cluster {
+	opt := DefaultOptions(seed)
+	opt.Family = "dupis"
+	opt.SnapThresh = uint64(2 + seed%4)
+	opt.SnapIntv = 20 * time.Millisecond
+	opt.Trailing = uint64(seed % 3)
+	opt.Mono = seed%2 == 0
+	opt.MaxAppend = 1 + int(seed%3)
+	c := NewCluster(t, opt)
+	c.Net.DupSnapshots = true
+	c.Bootstrap()
+	c.StartAll()
+	w := Weights{Deliver: 40, Reply: 40, Drop: 2, LoseResp: 2, Tick: 12, TickMax: 20 * time.Millisecond,
+		Apply: 10, Barrier: 1, UserSnap: 2, Partition: 3, Heal: 2, Crash: 1, Restart: 3, MaxCrashes: 3, DupIS: 4}
+	c.RandomRun(w, steps)
+	c.converge(500 * time.Millisecond)
 	return c
 }
